@@ -119,4 +119,5 @@ if __name__ == '__main__':
         wt = sys.argv[5] if len(sys.argv) > 5 and sys.argv[4] == '--wt' else f'/tmp/wt_{prop}'
         sys.exit(0 if confirm(prop, n, wt) else 1)
     checks = sys.argv[5].split(',') if len(sys.argv) > 5 and sys.argv[4] == '--checks' else [prop]
-    sys.exit(0 if detect(prop, n, checks) else 1)
+    wt = sys.argv[7] if len(sys.argv) > 7 and sys.argv[6] == '--wt' else None
+    sys.exit(0 if detect(prop, n, checks, wt) else 1)
